@@ -3,7 +3,7 @@ import numpy as np
 
 from .. import plan as P
 from ..sim import Monitor
-from .common import all_demes, flat, gb, strictly_better
+from .common import all_demes, flat, gb, strictly_better, terraced_scenario
 
 PROP = "C10"
 N_QUICK = 8000
@@ -58,6 +58,8 @@ def gen(seed, tier):
         for st in pl["stacks"]:
             st["layers"] = [x for x in st["layers"] if x["kind"] != "cutoff"]
         pl["faults"] = {}
+    if seed % 12 == 7:
+        pl = terraced_scenario(pl, random.Random(seed ^ 0x7E44))
     sp = pl["sprout"]
     if "generator" in sp and seed % 5 == 2:
         sp["deme_filters"].insert((seed // 5) % (len(sp["deme_filters"]) + 1), {"kind": "functional"})
